@@ -69,9 +69,6 @@ impl Flags {
             create_new: s.contains('x'),
         }
     }
-    pub fn rw() -> Flags {
-        Flags::parse("rw")
-    }
 }
 
 /// One step on an open handle (cursor based and positional).
@@ -259,36 +256,6 @@ impl Op {
             self,
             Op::SyncAll { .. } | Op::SyncData { .. } | Op::SyncDir { .. }
         )
-    }
-
-    pub fn paths_mut(&mut self) -> Vec<&mut String> {
-        match self {
-            Op::Open { p, .. }
-            | Op::WriteAt { p, .. }
-            | Op::Append { p, .. }
-            | Op::ReadAt { p, .. }
-            | Op::ReadAll { p, .. }
-            | Op::WriteAll { p, .. }
-            | Op::Handle { p, .. }
-            | Op::SetLen { p, .. }
-            | Op::SyncAll { p, .. }
-            | Op::SyncData { p, .. }
-            | Op::SyncDir { p, .. }
-            | Op::RemoveFile { p, .. }
-            | Op::CreateDir { p, .. }
-            | Op::CreateDirAll { p, .. }
-            | Op::RemoveDir { p, .. }
-            | Op::RemoveDirAll { p, .. }
-            | Op::ReadDir { p, .. }
-            | Op::Metadata { p, .. } => vec![p],
-            Op::Rename { a, b, .. } => vec![a, b],
-            Op::Advance { .. } | Op::Crash => vec![],
-        }
-    }
-
-    pub fn paths(&self) -> Vec<String> {
-        let mut c = self.clone();
-        c.paths_mut().into_iter().map(|s| s.clone()).collect()
     }
 
     pub fn to_json(&self) -> Value {
